@@ -99,8 +99,15 @@ def add_alt_shape(prog, rep, prefix, ctx, counter):
                 force = c.truth
             elif a[0] == "ret" and a[1].endswith(".check_alt") and a[3] == (SELF, ("p", "hashes")):
                 present = c.truth
-        ins = [i for i, e in enumerate(p.events) if e.kind == "call" and e.name == "add_alt" and e.recv is not None and strip_epochs(e.recv) == NEWEST]
-        other_ins = [e for e in p.events if e.kind == "call" and e.name in ("add_alt", "add") and e.recv is not None and strip_epochs(e.recv) != NEWEST
+        def newest_at(i, recv):
+            """recv is the newest sub-filter when event i happens: _blooms[-1], or the object appended last before i"""
+            if strip_epochs(recv) == NEWEST:
+                return True
+            app = [x.args[0] for x in p.events[:i] if x.kind == "call" and x.target is None and x.name == "append" and x.d.get("recv") is not None
+                   and strip_epochs(x.recv) == BLOOMS and x.args]
+            return bool(app) and strip_epochs(app[-1]) == strip_epochs(recv)
+        ins = [i for i, e in enumerate(p.events) if e.kind == "call" and e.name == "add_alt" and e.recv is not None and newest_at(i, e.recv)]
+        other_ins = [e for i, e in enumerate(p.events) if e.kind == "call" and e.name in ("add_alt", "add") and e.recv is not None and not newest_at(i, e.recv)
                      and strip_epochs(e.recv) != SELF and not e.d.get("inlined")]
         if other_ins:
             rep.bad(f"{prefix}.insert-condition", where, f"insert into {nshow(other_ins[0].recv)}", "insertion does not go to the newest sub-filter", other_ins[0].where())
